@@ -108,6 +108,28 @@ def model_mismatch(ctx, key, what, case):
 
 APIS = ('linen', 'nnx')
 
+_PALS = {}
+
+
+def shared_pal(rng, thorough, which):
+  """Shape palettes shared by the sections of one run: every new array shape costs a round of XLA compilations,
+  so the attention sections (and the real-cell RNN sections) draw their shapes from one small palette."""
+  key = (id(rng), which)
+  if key not in _PALS:
+    if which == 'attn':  # (B, T, F, H, D)
+      pal = [(rng.randrange(1, 3), rng.randrange(2, 7), rng.randrange(2, 5), rng.randrange(1, 3), rng.randrange(1, 3)) for _ in range(2 if not thorough else 12)]
+      if not any(p_[1] >= 4 for p_ in pal):
+        pal[0] = (pal[0][0], rng.randrange(4, 7)) + pal[0][2:]
+      if not any(p_[3] >= 2 for p_ in pal):
+        pal[-1] = pal[-1][:3] + (2,) + pal[-1][4:]
+    else:  # 'rnn': (B, T, F, H)
+      pal = [(rng.randrange(1, 4), rng.randrange(2, 7), rng.randrange(1, 4), rng.randrange(1, 4)) for _ in range(2 if not thorough else 12)]
+      if not any(p_[1] >= 4 for p_ in pal):
+        pal[0] = (pal[0][0], rng.randrange(4, 7)) + pal[0][2:]
+    _PALS[key] = pal
+  return _PALS[key]
+
+
 
 def rec_mod(api):
   return l_rec if api == 'linen' else x_rec
@@ -376,7 +398,7 @@ def np_int_cell(cell, c, x):
 
 def gen_intrnn_cases(rng, thorough):
   cases = []
-  n = 120 if not thorough else 6000
+  n = 104 if not thorough else 6000
   npal = 3 if not thorough else 40
   palette = [(rng.randrange(1, 7), [rng.randrange(1, 4)], rng.randrange(1, 3)) for _ in range(npal)]
   pal2 = [(rng.randrange(3, 6), [2, 2], 1), (rng.randrange(3, 5), rng.choice([[2, 3], [3, 2]]), 1)]
@@ -582,8 +604,8 @@ def check_intrnn(ctx, batch, cases):
 
 def gen_decode_trace_cases(rng, thorough):
   cases = []
-  pal = [(rng.randrange(1, 3), rng.randrange(2, 6), rng.randrange(2, 4), rng.randrange(1, 3), rng.randrange(1, 3)) for _ in range(3 if not thorough else 20)]
-  for _ in range(12 if not thorough else 250):
+  pal = shared_pal(rng, thorough, 'attn')
+  for _ in range(8 if not thorough else 250):
     B, T, F, H, D = rng.choice(pal)
     L = T
     user = None
@@ -1020,10 +1042,8 @@ def check_cellstep(ctx, batch, cases):
 
 def gen_cellrnn_cases(rng, thorough):
   cases = []
-  pal = [(rng.randrange(1, 4), rng.randrange(2, 7), rng.randrange(1, 4), rng.randrange(1, 4)) for _ in range(2 if not thorough else 12)]
-  if not any(T >= 4 for _, T, _, _ in pal):
-    pal[0] = (pal[0][0], rng.randrange(4, 7), pal[0][2], pal[0][3])
-  n = 28 if not thorough else 600
+  pal = shared_pal(rng, thorough, 'rnn')
+  n = 20 if not thorough else 600
   for i in range(n):
     api = APIS[i % 2]
     names = cell_names(api)
@@ -1192,7 +1212,7 @@ def check_cellrnn(ctx, batch, cases):
 
 def gen_lstmagree_cases(rng, thorough):
   cases = []
-  pal = [(rng.randrange(1, 4), rng.randrange(2, 6), rng.randrange(1, 4), rng.randrange(1, 4)) for _ in range(2 if not thorough else 10)]
+  pal = shared_pal(rng, thorough, 'rnn')
   for i in range(4 if not thorough else 200):
     B, T, F, H = rng.choice(pal)
     cases.append({'kind': 'lstm-agree', 'cell': ('LSTM', 'OptLSTM')[i % 2], 'B': B, 'T': T, 'F': F, 'H': H, 'pseed': rng.randrange(10**6),
@@ -1238,11 +1258,9 @@ PERT = [1e6, -1e6, 1e3, -37.5, 0.001, 7.0, -250.0]
 
 def gen_attn_cases(rng, thorough):
   cases = []
-  pal = [(rng.randrange(1, 3), rng.randrange(2, 7), rng.randrange(2, 5), rng.randrange(1, 3), rng.randrange(1, 3)) for _ in range(2 if not thorough else 12)]
-  if not any(T >= 4 for _, T, _, _, _ in pal):
-    pal[0] = (pal[0][0], rng.randrange(4, 7)) + pal[0][2:]
+  pal = shared_pal(rng, thorough, 'attn')
   modes = ['self-mask', 'cross-mask', 'causal', 'fn-mask']
-  n = 32 if not thorough else 1200
+  n = 24 if not thorough else 1200
   for i in range(n):
     B, T, F, H, D = rng.choice(pal)
     mode = modes[i % 4]
@@ -1350,8 +1368,8 @@ def check_attn(ctx, batch, cases):
 
 def gen_decodef_cases(rng, thorough):
   cases = []
-  pal = [(rng.randrange(1, 3), rng.randrange(2, 7), rng.randrange(2, 5), rng.randrange(1, 3), rng.randrange(1, 3)) for _ in range(2 if not thorough else 12)]
-  for i in range(8 if not thorough else 250):
+  pal = shared_pal(rng, thorough, 'attn')
+  for i in range(6 if not thorough else 250):
     B, T, F, H, D = rng.choice(pal)
     cases.append({
       'kind': 'decode-float', 'api': APIS[i % 2], 'B': B, 'T': T, 'F': F, 'H': H, 'D': D, 'pseed': rng.randrange(10**6),
@@ -1495,7 +1513,7 @@ def check_weights(ctx, batch, cases):
 
 def gen_mhaagree_cases(rng, thorough):
   cases = []
-  pal = [(rng.randrange(1, 3), rng.randrange(2, 6), rng.randrange(2, 5), rng.randrange(1, 3), rng.randrange(1, 3)) for _ in range(2 if not thorough else 10)]
+  pal = shared_pal(rng, thorough, 'attn')
   for i in range(6 if not thorough else 300):
     B, T, F, H, D = rng.choice(pal)
     cases.append({'kind': 'mha-agree', 'B': B, 'T': T, 'F': F, 'H': H, 'D': D, 'pseed': rng.randrange(10**6),
